@@ -4,6 +4,7 @@ import CanVerif.Spec.DbcRT
 import CanVerif.Model.DbcStart
 import CanVerif.Model.DbcStmt
 import CanVerif.Model.DbcAttr
+import CanVerif.Model.DbcComment
 open Lean CanVerif CanVerif.Dbc
 
 namespace D05
@@ -203,6 +204,19 @@ def handle (op : String) (c i : Json) : Except String (Json × String) := do
     let p := ← J.key i "parsed"
     let verdict := if J.isNull p then "fail: the reader did not accept the BA_ line the writer produced"
       else if p == baJ b then "ok" else "fail: the BA_ line reads back as another attribute value"
+    pure (m, verdict)
+  | "cm" =>
+    -- c = {"cm": {"head": "CM_ SG_ <id> <name>", "text": comment}}; i = {"lines": the statement's lines in the file behind the opening
+    -- quote, "parsed": the comment the real reader makes of them | null}
+    let text := (← J.str (← J.key (← J.key c "cm") "text")).toList
+    let want := renderCommentBody text
+    let parsedM := match want with
+      | first :: rest => readCommentBody first rest
+      | [] => none
+    let m := J.obj [("lines", J.ofStrList (want.map String.ofList)), ("parsed", optJ (fun t => Json.str (String.ofList t)) parsedM)]
+    let p := ← J.key i "parsed"
+    let verdict := if !wfComment text then "ok"      -- outside the statement's envelope: the whole-file case and the known findings decide
+      else if p == Json.str (String.ofList text) then "ok" else "fail: the comment does not come back as written"
     pure (m, verdict)
   | "file" =>
     let bs ← (← J.arr (← J.key c "blocks")).mapM blockOf
